@@ -50,6 +50,9 @@ def decGraphIn (j : Json) : R GraphIn := do
   let id ← optStr j "id"
   let types ← (← (← j.getObjVal? "types").getArr?).toList.mapM decTriple
   let all ← (← (← j.getObjVal? "all").getArr?).toList.mapM decTriple
-  return ⟨id, types, all⟩
+  let pat ← match j.getObjVal? "pat" with
+    | .ok p => (← p.getArr?).toList.mapM decTriple
+    | .error _ => pure all
+  return ⟨id, types, all, pat⟩
 
 end Driver
